@@ -106,6 +106,11 @@ def cases(draw, tier):
     kind, rhs = draw(gen.rhs_for(shape, dt, allow_vector=True))
     entry = draw(st.sampled_from(["solve", "solve", "solve", "torch.linalg.solve", "free"]))
     case = {"recipe": r, "rhs": rhs, "rhs_kind": kind, "entry": entry, "cell": draw(st.sampled_from(CELLS))}
+    if not chol_upper and n > 1 and draw(st.integers(0, 7)) == 0:
+        # an INTERMEDIATE Cholesky threshold: the operator as a whole is above it (structured / iterative solve selected),
+        # its components (Kronecker factors, summands, blocks) may be below it (their roots come from Cholesky)
+        node_sizes = sorted({refmodel.shape(nd)[-1] for nd in R.walk(r) if "op" in nd and nd["op"] not in ("Tensor",)} - {n})
+        case["cell"] = {"max_cholesky_size": draw(st.sampled_from(([max(node_sizes)] if node_sizes else []) + [n - 1]))}
     if chol_upper:
         case["cell"] = {}
     if "lanczos_structured_solve" in _open_triggers() and TRIGGERS["lanczos_structured_solve"](case):
